@@ -64,7 +64,7 @@ func TestC44_MinerRound(t *testing.T) {
 		}},
 		{Name: "GetVerificationTickets", R: []string{"tickets"}, Weight: 2, Fn: func(g, a int) {
 			_ = mr.GetVerificationTickets(fmt.Sprintf("%064x", 0xb0+a%3))
-			_ = mr.IsTicketCollected(&bvt(a).VerificationTicket)
+			_ = mr.IsTicketCollected(bvt(a))
 		}},
 		{Name: "VrfShare", W: []string{"vrfShare"}, Fn: func(g, a int) {
 			if mr.VrfShare() == nil {
